@@ -143,13 +143,24 @@ def truthy : V → Bool
   | .bool false => false
   | _ => true
 
-/-- the elements a `for` loop (or an unpacking) sees; `none`: not described by the model -/
+/-- name of map key `n`: `k<n>` -/
+def keyName (n : Nat) : List Nat := 107 :: (Nat.toDigits 10 n).map Char.toNat
+
+/-- entries of a map as the pairs an iteration produces: tuples `(key, value)` -/
+def entryPairs (es : List (Nat × V)) : List V := es.map fun e => V.tuple [.str (keyName e.1), e.2]
+
+/-- the elements a `for` loop (or an unpacking) sees; `none`: not described by the model.
+Maps produce their entries as `(key, value)` **tuples** — whatever form the loop's arguments have,
+the value a hint sees is a `Tuple`, never the runtime's internal `TemporaryTuple`. A map with a
+metamap iterates its entries too unless it overrides iteration (`@iterator`/`@next`: not modelled). -/
 def items : V → Option (List V)
   | .list xs => some xs
   | .tuple xs => some xs
   | .iter xs => some xs
   | .range a b => some ((List.range (b - a).toNat).map (fun (i : Nat) => V.int (a + (i : Int))))
   | .str cs => some (cs.map (fun c => V.str [c]))
+  | .map es => some (entryPairs es)
+  | .obj _ fl es _ => if fl.iter || fl.next then none else some (entryPairs es)
   | _ => none
 
 /-- sequencing on every result -/
